@@ -2346,3 +2346,63 @@ Qed.
 
 Example fetch_progress_ex : exists v, inq_file_format ex_valid_file = Ok v.
 Proof. eexists. vm_compute. reflexivity. Qed.
+
+(* ================================================================== *)
+(** * The record size derived at open is the WRITER's record size (Header.begins / NC_begins) *)
+From Pnc Require Proofs_Layout.
+
+Lemma layout_of_hdr_recsize : forall h x,
+  l_recsize (layout_of_hdr h x) =
+  match Proofs_Layout.rec_vars h with
+  | fr :: _ => if zsum (map (var_len (h_dims h)) (Proofs_Layout.rec_vars h)) =? var_len (h_dims h) fr
+               then Proofs_Layout.unpadded (h_dims h) fr
+               else zsum (map (var_len (h_dims h)) (Proofs_Layout.rec_vars h))
+  | [] => 0 end.
+Proof.
+  intros h x. unfold layout_of_hdr, Proofs_Layout.rec_vars, Proofs_Layout.unpadded.
+  destruct (h_vars h) as [|v0 vs] eqn:Ev; [reflexivity|]. rewrite <- Ev.
+  destruct (filter (is_recvar (h_dims h)) (h_vars h)) as [|fr frs]; destruct (h_vars h); try congruence; reflexivity.
+Qed.
+
+Lemma pvQ_len_pos : forall dims v, Forall (fun d => 0 <= d_size d) dims -> pvQ dims v -> 0 < var_len dims v.
+Proof.
+  intros dims v Hd Hq. pose proof (pvQ_facts dims Hd v Hq) as (Hnn & He & Hraw & HL & HLe).
+  destruct Hq as (_ & Hx & _). pose proof (zprod_pos1 _ He) as Hz.
+  assert (1 <= rawv dims v) by (unfold rawv; nia).
+  unfold Lv in *. rewrite HLe. destruct (rawv dims v mod 4 >? 0); lia.
+Qed.
+
+(* C04 reader_recsize_writer_rule: for every specification-valid file and every chunk size, the record
+   size the reader derives at open (compute_var_shape) is the record size the writer-side rule of
+   Header.v assigns to that header (Proofs_Layout.recsize_of = l_recsize of Header.begins, theorems
+   Proofs_Layout.begins_eq / begins_layout_ok); in particular with EXACTLY ONE record variable it is that variable's
+   UNPADDED size (any element size: 1, 2, 4 or 8 bytes), with none it is 0 *)
+Theorem reader_recsize_writer_rule : forall hint mm f d, decode f = Some d -> c04_valid mm d = true ->
+  exists o, out_res (open_model hint mm f) = Ok o /\ o_hdr o = dc_hdr d /\
+    l_recsize (o_lay o) = Proofs_Layout.recsize_of (dc_hdr d) /\
+    (forall v, Proofs_Layout.rec_vars (dc_hdr d) = [v] ->
+               l_recsize (o_lay o) = var_nelems_per_rec (var_shape (h_dims (dc_hdr d)) v) * xlen_type (v_type v)) /\
+    (Proofs_Layout.rec_vars (dc_hdr d) = [] -> l_recsize (o_lay o) = 0).
+Proof.
+  intros hint mm f d Hdec Hval. exists (expected_open d).
+  split; [now apply reader_accepts_valid|]. split; [reflexivity|].
+  pose proof (c04_valid_inv mm d Hval (decode_len f d Hdec)) as Hinv. cbv zeta in Hinv.
+  destruct Hinv as (_ & _ & _ & _ & _ & Hdn & _ & _ & _ & _ & _ & _ & _ & (HQ & _) & _ & _).
+  assert (Hwf : Proofs_Layout.hdr_wf (dc_hdr d)) by exact Hdn.
+  assert (Hpos : forall v, In v (Proofs_Layout.rec_vars (dc_hdr d)) -> 0 < var_len (h_dims (dc_hdr d)) v).
+  { intros v Hv. unfold Proofs_Layout.rec_vars in Hv. apply filter_In in Hv. destruct Hv as [Hv _].
+    rewrite Forall_forall in HQ. apply pvQ_len_pos; [exact Hdn | now apply HQ]. }
+  assert (E : l_recsize (o_lay (expected_open d)) = Proofs_Layout.recsize_of (dc_hdr d)).
+  { unfold expected_open. cbn [o_lay]. rewrite layout_of_hdr_recsize.
+    rewrite Proofs_Layout.recsize_of_rule. symmetry. now apply Proofs_Layout.rs_rule_first. }
+  split; [exact E|]. split.
+  - intros v Hv. rewrite E. now rewrite (Proofs_Layout.recsize_single _ v Hv).
+  - intros Hn. rewrite E. now apply Proofs_Layout.recsize_none.
+Qed.
+
+Example reader_recsize_writer_rule_ex : exists d, decode ex_valid_file = Some d /\ c04_valid 1048576 d = true /\
+  length (Proofs_Layout.rec_vars (dc_hdr d)) = 2%nat /\ Proofs_Layout.recsize_of (dc_hdr d) = 12.
+Proof.
+  destruct (decode ex_valid_file) as [d|] eqn:E; [|vm_compute in E; discriminate].
+  exists d. split; [reflexivity|]. vm_compute in E. inversion E. subst d. vm_compute. repeat split; reflexivity.
+Qed.
